@@ -194,6 +194,7 @@ func c14Vars(log *[]string, jfName string) jet.VarMap {
 	vars["nilv"] = reflect.Value{}
 	vars.Set("mm", map[string]interface{}{"k": "v"})
 	vars.Set("bv", []byte("  By Tes  "))
+	vars.Set("ih", mj.Build(mj.Recipe{T: "iface-holder"})) // collections in slots of interface types that have methods
 	// integers that a float64 cannot hold: what a function reads out of its arguments is the integer it was handed
 	vars.Set("big", int64(1<<53+1))
 	vars.Set("bigneg", -(1<<62 + 3))
@@ -291,6 +292,7 @@ func genC14(t *rapid.T) c14Case {
 			// functions that are nil; arguments that only look convertible
 			`{{ nilfn("a") }}`, `{{ "a" | nilfn }}`, `{{ nilfn: "a" }}`, `{{ fholder.F("a") }}`, `{{ "a" | fholder.F }}`, `{{ niljf("a") }}`,
 			`{{ arr4(xsl) }}`, `{{ xsl | arr4 }}`, `{{ arr2v(xsl) }}`,
+			`{{ f1("x", _) }}`, `{{ f1: "x", _ }}`, `{{ f2("a", 1, _) }}`, `{{ obj.Join("a", "b", _) }}`, `{{ "p" | f2(f1("x", _), 1) }}`,
 			`{{ fs1("a") }}`, `{{ "a" | fs1 }}`, `{{ fs1: iv }}`, `{{ fs1(mm) }}`,
 			`{{ fstr("a", "b") }}`, `{{ fstr("a", strg, 1) }}`, `{{ fstr: "a", iv }}`, `{{ "x" | fstr("a", _) }}`, `{{ sv | fstr: "a" }}`, `{{ ferr("a", "b") }}`, `{{ ferr("a", strg) }}`, `{{ iv | ferr("a", _) }}`, `{{ ferr: "a", mm }}`,
 			// built-ins handed values of the wrong kind (also where treating them as 0 would give a valid range)
@@ -607,6 +609,7 @@ func genC14Builtin(t *rapid.T) c14Case {
 		{"{{ big | pf64: iv }}|{{ bigneg | pf64(big, _) }}", "pf64(9007199254740993,7)|pf64(9007199254740993,-4611686018427387907)"},
 		{"{{ tee(sink, bv) }}[{{ sinkText() }}]", "[  BY TES  ]"}, {"{{ tee: sink, bv }}[{{ sinkText() }}]", "[  BY TES  ]"}, {"{{ sink | tee: bv }}[{{ sinkText() }}]", "[  BY TES  ]"}, {"{{ bv | tee(sink, _) }}[{{ sinkText() }}]", "[  BY TES  ]"},
 		{"{{ fs1(strg) }}|{{ strg | fs1 }}", "fs1(string:stringer)|fs1(string:stringer)"},
+		{"{{ len(ih.Sorted) }}|{{ ih.Counts | len }}|{{ len: ih.Empty }}", "2|1|0"},
 		{"{{ trimSpace(bv) }}", "By Tes"}, {"{{ bv | upper }}", "  BY TES  "}, {"{{ lower: bv }}", "  by tes  "}, {"{{ hasPrefix(bv, \"  By\") }}", "true"},
 		{"{{ json(" + q(s) + ") | upper }}", esc(strings.ToUpper(js(s)))},
 		{"{{ " + q(s) + " | upper }}", esc(strings.ToUpper(s))},
